@@ -87,13 +87,23 @@ macro_rules! hk {
             fn reference() -> RefHasher {
                 $refe
             }
+            #[cfg(cryptocorrosion_verif)]
             fn set_counter(d: &mut Self::D, c: u128) {
                 let f: fn(&mut $ty, u128) = $set;
                 f(d, c)
             }
+            #[cfg(cryptocorrosion_verif)]
             fn get_counter(d: &Self::D) -> u128 {
                 let f: fn(&$ty) -> u128 = $get;
                 f(d)
+            }
+            #[cfg(not(cryptocorrosion_verif))]
+            fn set_counter(_d: &mut Self::D, _c: u128) {
+                panic!("hook H2 not compiled in")
+            }
+            #[cfg(not(cryptocorrosion_verif))]
+            fn get_counter(_d: &Self::D) -> u128 {
+                panic!("hook H2 not compiled in")
             }
         }
     };
